@@ -1,6 +1,7 @@
 (* Model of the MVCC version store of src/graph/store.rs : node version chains
    (create_node*, set_node_property copy-on-write, get_node_at_version), the
-   relationship property version log (create_edge, set_edge_property,
+   relationship property version log (create_edge with its creation image, set_edge_property
+   with its pre-image,
    get_edge_at_version), get_node_for_txn / get_edge_for_txn, gc_versions,
    gc_watermark, gc_auto.  The transaction table is model/Txn.v.
    Executable; no proofs here.
@@ -77,23 +78,28 @@ Definition has_edge (s : store) (id : N) : bool := mem id (live s).
 Definition cur_eprops (s : store) (id : N) : props :=
   match lookup id (eprops s) with Some p => p | None => [] end.
 
-(* get_edge_at_version: (edge version, properties) *)
+(* get_edge_at_version: (edge version, properties).  The first entry of a log is keyed by
+   the version the relationship exists from (creation image, or the pre-image pushed under
+   version 1 by the first update of a relationship created at version 1): when every entry
+   is newer than v the relationship did not exist yet (or that history was collected). *)
 Definition read_edge (s : store) (id v : N) : option ver :=
   if negb (has_edge s id) then None
   else
-    let r :=
-      match lookup id (elog s) with
-      | Some log =>
-          match rfind (fun e => N.leb (v_ver e) v) log with
-          | Some entry =>
+    match lookup id (elog s) with
+    | Some log =>
+        match rfind (fun e => N.leb (v_ver e) v) log with
+        | Some entry =>
+            let r :=
               if existsb (fun e => N.ltb v (v_ver e)) log || N.ltb v (curv s)
               then {| v_ver := v_ver entry; v_props := v_props entry |}      (* historical snapshot *)
-              else {| v_ver := v_ver entry; v_props := cur_eprops s id |}    (* current read *)
-          | None => {| v_ver := 1; v_props := cur_eprops s id |}
-          end
-      | None => {| v_ver := 1; v_props := cur_eprops s id |}
-      end in
-    if N.ltb v (v_ver r) then None else Some r.
+              else {| v_ver := v_ver entry; v_props := cur_eprops s id |} in (* current read *)
+            if N.ltb v (v_ver r) then None else Some r
+        | None => None
+        end
+    | None =>
+        (* created at version 1, never updated since *)
+        if N.ltb v 1 then None else Some {| v_ver := 1; v_props := cur_eprops s id |}
+    end.
 
 (* get_node_for_txn / get_edge_for_txn *)
 Definition node_for_txn (s : store) (t id : N) : option ver :=
@@ -182,11 +188,23 @@ Definition set_node (s : store) (n k v : N) : store * mres :=
       end
   end.
 
+(* log_edge_creation: a relationship created after version 1 starts its log with the image it
+   is created with, keyed by the creation version *)
+Definition log_creation (s : store) (id : N) : list (N * list ver) :=
+  if N.ltb 1 (curv s)
+  then set id [{| v_ver := curv s; v_props := cur_eprops s id |}] (elog s)
+  else elog s.
+
 Definition set_edge (s : store) (e k v : N) : store * mres :=
   if negb (has_edge s e) then (s, MErr)
   else
     let post := pset k v (cur_eprops s e) in
-    let log := match lookup e (elog s) with Some l => l | None => [] end in
+    let log0 := match lookup e (elog s) with Some l => l | None => [] end in
+    (* first update of a relationship created at version 1, at a later version: pre-image *)
+    let log := match log0 with
+               | [] => if N.ltb 1 (curv s) then [{| v_ver := 1; v_props := cur_eprops s e |}] else []
+               | _ => log0
+               end in
     let log' :=
       match olast log with
       | Some l0 => if N.eqb (v_ver l0) (curv s)
@@ -209,7 +227,7 @@ Definition step (s : store) (o : mop) : store * mres :=
       if has_node s a && has_node s b then
         let id := next_edge s in
         ({| tx := tx s; next_node := next_node s; next_edge := id + 1; nodes := nodes s;
-            live := live s ++ [id]; eprops := eprops s; elog := elog s |}, MId id)
+            live := live s ++ [id]; eprops := eprops s; elog := log_creation s id |}, MId id)
       else (s, MErr)
   | SetEdge e k v => set_edge s e k v
   | Tx (Gc w) => (gc s w, MGc (gc_count w (nodes s)) (gc_count w (elog s)))
